@@ -177,6 +177,8 @@ def check(facts, rep, tier, cfg):
     rep.rule("C11.R6", "get_datagram is cancel safe: no suspension point after a datagram has been taken off the queue (it is polled inside select! by the client and the server)")
     check_receive_cancel_safe(facts, rep, crate)
     check_option_setters(facts, rep, crate, "C11.R4", ['datagram_buffer_size'])
+    rep.rule("C11.S1", "S1: every message taken off the outbound queue is handed to the WebSocket sink by the send loop (= C02.R2): the frames this property relies on are not dropped, deduplicated or reordered on the way out")
+    import_outbound_queue_rule(facts, rep, tier, cfg, "C11.S1")
     rep.rule("C11.S7", "who-may: the functions that touch the critical resources behind this property are those of the reference tree (flow table, closed flag, per-stream / datagram / outbound queues, last-pong timestamp, client id maps, shared TLS identity)")
     import whomay
     whomay.check(facts, rep, "C11.S7", "C11")
